@@ -11,9 +11,13 @@ Definition width_ok (w : nat) : bool := (Nat.eqb w 1 || Nat.eqb w 2 || Nat.eqb w
 Definition int_ok (w : nat) (s : bool) (z : Z) : bool :=
   if s then (- (pow8 w / 2) <=? z) && (z <? pow8 w / 2) else (0 <=? z) && (z <? pow8 w).
 Definition float_ok (w : nat) (z : Z) : bool := (Nat.eqb w 4 || Nat.eqb w 8) && (0 <=? z) && (z <? pow8 w).
-(* DateTime: the int64-nanosecond range of the property *)
+(* DateTime: every time whose count of 100 ns ticks since 1601 fits an int64 (years -27627 .. 30828; this includes the
+   int64-nanosecond range of the property, 9999-12-31 and everything a decoder can return) *)
 Definition time_ok (t : option Z) : bool :=
-  match t with None => true | Some ns => (-9223372036854775808 <=? ns) && (ns <? 9223372036854775808) end.
+  match t with
+  | None => true
+  | Some ns => (-9223372036854775808 <=? ns / 100 + time_offset) && (ns / 100 + time_offset <? 9223372036854775808)
+  end.
 Definition str_ok (s : bytes) : bool := blen s <=? max_int32.
 Definition byte_ok (z : Z) : bool := (0 <=? z) && (z <? 256).
 
@@ -80,8 +84,14 @@ Fixpoint gwf (t : ty) (v : val) {struct v} : bool :=
   | TCustom _ => false
   end.
 
+(* 100 ns resolution (rounded down); tick count 0 (1601-01-01T00:00:00Z) is the null DateTime and 0001-01-01T00:00:00Z is
+   Go's zero time: both come back as the zero time *)
 Definition norm_time (t : option Z) : option Z :=
-  match t with None => None | Some ns => Some (Z.quot ns 100 * 100) end.
+  match t with
+  | None => None
+  | Some ns => let q := ns / 100 in
+               if (q + time_offset =? 0) || (q * 100 =? zero_time_ns) then None else Some (q * 100)
+  end.
 
 (* the documented normalisations: 100 ns time resolution, NaN canonicalisation; (in this fragment nil and empty
    slices / byte strings round-trip exactly, and "" is the only empty string) *)
